@@ -340,7 +340,7 @@ def run_lines(binp, lines, args=(), env=None, timeout=3600):
         if p.returncode == 3 and got and got[-1] == "HANG":
             outs += got  # HANG is the observation of the case it hung on
             i += len(got)
-            deaths += 10   # a hang costs the watchdog time: allow fewer of them
+            deaths += 30   # a hang costs the watchdog time (20 s): allow only a few per shard
             continue
         if p.returncode == 0:
             # fewer lines than cases without dying: protocol error
